@@ -175,7 +175,7 @@ class Gen:
             params.append("%s %s %s" % (f, self.pick(["=", "!=", ">", ">=", "<", "<="]), self.typed(t)))
         if self.chance(1, 3): params.append("order_by(%s %s)" % (self.pick(sc["scalars"])[0], self.pick(["asc", "desc"])))
         if self.chance(1, 4): params.append("first %s" % self.pick(["1", "3", "$i1"]))
-        if self.chance(1, 6): params.append("skip %s" % self.pick(["0", "1"]))
+        if self.chance(1, 6): params.append("skip %s" % self.pick(["0", "1", "$i1"]))
         if sc["json"] and self.chance(1, 5): params.append("%s->$.a = %s" % (self.pick(sc["json"]), self.pick(["1", '"x"', "null"])))
         if sc["refs"] and self.chance(1, 6): params.append("nullable(%s)" % sc["refs"][-1][0])
         if self.chance(1, 8) and not any(p.startswith("order_by") for p in params): params.append('search("ab")')
@@ -267,7 +267,7 @@ def query_product():
     field_filters = [None, 'name != "zz"', "age > $i2", 'nick = "none"']
     for kind, fields, orders, havings in shapes:
         for order in [None] + orders:
-            pagings = [[], ["first 2"], ["skip 1"], ["first 2", "skip 1"]]
+            pagings = [[], ["first 2"], ["skip 1"], ["first 2", "skip 1"], ["skip $i1"], ["first $i1", "skip $i1"], ["first 2", "skip $i1"]]
             if order is not None:
                 vals = order[1]
                 for k in range(1, len(vals) + 1):
